@@ -14,6 +14,7 @@
     The pianoroll theorems are parametric in [legacy] (before / after notes/C06-fix-2.diff);
     [C06_pianoroll_legacy_refuted] records what the code before it loses. *)
 From Coq Require Import ZArith List Bool Reals.
+From NS Require Gen.TrF Proofs.TrEquivF06 Proofs.TrEquivF.
 From NS Require Import Base.NoteSeq Base.FloatBridge Gen.G01 Gen.G06 Gen.G07 Model.Quantize Model.FqCommon Model.FqMelody
   Model.FqDrums Model.FqChords Model.FqPianoroll Model.FqPerformance Model.FqSpec
   Model.RenderCommon Model.RenderMelody Model.RenderDrums Model.RenderChords Model.RenderPianoroll
@@ -369,3 +370,32 @@ Print Assumptions C06_perf_canonical_nonvacuous.
 Example C06_step_time_nonvacuous : ltac:(let t := type of step_time_roundtrip_nonvacuous in exact t).
 Proof. exact step_time_roundtrip_nonvacuous. Qed.
 Print Assumptions C06_step_time_nonvacuous.
+
+(** Source-level tie (second kind): the seconds_per_step expression of each to_sequence method, re-translated
+    from the SOURCE on every run into PrimFloat terms (Gen/TrF.v, harness/vt/pytr.py), is the sigma the step-time
+    round-trip theorems above are stated for — bit for bit, for all arguments. *)
+Theorem C06_source_seconds_per_step : forall (spq sps : Z) (qpm : PrimFloat.float),
+  NS.Gen.TrF.trf_sigma_melody spq qpm = Some (sigma_rel qpm spq) /\
+  NS.Gen.TrF.trf_sigma_drums spq qpm = Some (sigma_rel qpm spq) /\
+  NS.Gen.TrF.trf_sigma_chords spq qpm = Some (sigma_rel qpm spq) /\
+  NS.Gen.TrF.trf_sigma_pianoroll spq qpm = Some (sigma_rel qpm spq) /\
+  NS.Gen.TrF.trf_sigma_metric spq qpm = Some (sigma_metric qpm spq) /\
+  NS.Gen.TrF.trf_sigma_performance sps = Some (sigma_abs sps) /\
+  NS.Gen.TrF.trf_sigma_noteperformance sps = Some (sigma_abs sps).
+Proof.
+  intros spq sps qpm.
+  exact (conj (NS.Proofs.TrEquivF06.trf_sigma_melody_eq spq qpm)
+        (conj (NS.Proofs.TrEquivF06.trf_sigma_drums_eq spq qpm)
+        (conj (NS.Proofs.TrEquivF06.trf_sigma_chords_eq spq qpm)
+        (conj (NS.Proofs.TrEquivF06.trf_sigma_pianoroll_eq spq qpm)
+        (conj (NS.Proofs.TrEquivF06.trf_sigma_metric_eq spq qpm)
+        (conj (NS.Proofs.TrEquivF06.trf_sigma_performance_eq sps)
+              (NS.Proofs.TrEquivF06.trf_sigma_noteperformance_eq sps))))))).
+Qed.
+Print Assumptions C06_source_seconds_per_step.
+
+(** ... and so are the quantizer functions the round trip goes back through (shared with C01). *)
+Theorem C06_source_quantize_to_step : forall t sps,
+  NS.Gen.TrF.trf_quantize_to_step t sps NS.Model.Quantize.cutoff = Some (NS.Model.Quantize.q2s t sps).
+Proof. exact NS.Proofs.TrEquivF.trf_quantize_to_step_eq. Qed.
+Print Assumptions C06_source_quantize_to_step.
